@@ -222,6 +222,26 @@ func (w *Writer) EncodeChunks(m Msg) [][]byte {
 	return out
 }
 
+// EncodeParts returns the header of the message's first chunk and the header every continuation chunk carries
+// (format-3 basic header plus the extended timestamp when the message uses one), so that a caller can cut the
+// payload into chunks itself - e.g. with a chunk size that changes while the message is in flight.
+func (w *Writer) EncodeParts(m Msg) (firstHdr, contHdr []byte) {
+	chunks := w.EncodeChunks(m)
+	n := len(m.Payload)
+	first := n
+	if first > w.ChunkSize {
+		first = w.ChunkSize
+	}
+	firstHdr = append([]byte(nil), chunks[0][:len(chunks[0])-first]...)
+	contHdr = basicHeader(3, m.Csid)
+	if st := w.cs[m.Csid]; st.ext {
+		var e [4]byte
+		binary.BigEndian.PutUint32(e[:], st.extVal)
+		contHdr = append(contHdr, e[:]...)
+	}
+	return
+}
+
 // SetChunkSizeMsg builds the protocol control message announcing a new chunk size.
 func SetChunkSizeMsg(n int) Msg {
 	var p [4]byte
